@@ -200,6 +200,14 @@ def discharge(obls, z3_ms=5000, cvc5_ms=20000, procs=None):
     with ctx.Pool(procs) as pool:
         for idx, v, be, dt, m, nq in pool.imap_unordered(_work, range(len(obls)), chunksize=4):
             res[idx] = Result(obls[idx], v, be, dt, m, nq)
+    # second pass for what stayed undecided: fewer workers (less contention), doubled budgets
+    again = [i for i, r in enumerate(res) if r.verdict == 'unknown' and obls[i].kind != 'V']
+    if again:
+        _CFG['z3_ms'], _CFG['cvc5_ms'] = 2 * z3_ms, 2 * cvc5_ms
+        with ctx.Pool(min(4, len(again))) as pool:
+            for idx, v, be, dt, m, nq in pool.imap_unordered(_work, again, chunksize=1):
+                if v != 'unknown':
+                    res[idx] = Result(obls[idx], v, be + '(2nd pass)', res[idx].secs + dt, m, nq)
     return res
 
 
